@@ -62,6 +62,8 @@ func (e *Engine) heapSortFromID(id string) string {
 		so = "(Array Int Bool)"
 	case id == "gh:$iofail", id == lockCount:
 		so = "Int"
+	case id == "gh:$visited":
+		so = "(Array Iface Bool)"
 	case id == "gh:$smhas":
 		so = "(Array Int (Array Iface Bool))"
 	case id == "gh:$smval":
